@@ -60,6 +60,9 @@ mod real {
         delay: [Vec<u8>; 3],
         /// record ids validated once more after everything is done
         misuse: Vec<usize>,
+        /// the validator handle is dropped before the misuse requests, while a context obtained
+        /// from it is still held (the batches live in the validator)
+        orphan: bool,
         seed: u64,
     }
 
@@ -106,6 +109,10 @@ mod real {
         let res: Vec<Result<(), String>> = join_all(futs).await;
         // misuse, once everything has been validated
         let mut mis = vec![];
+        let mut v = Some(v);
+        if plan.orphan {
+            let _ = catch(AssertUnwindSafe(|| drop(v.take())));
+        }
         for &x in &plan.misuse {
             let r = AssertUnwindSafe(m.validate_record(RecordId::from(x))).catch_unwind().await;
             match r {
@@ -155,6 +162,10 @@ mod real {
         });
         let res: Vec<Result<(), String>> = join_all(futs).await;
         let mut mis = vec![];
+        let mut v = Some(v);
+        if plan.orphan {
+            let _ = catch(AssertUnwindSafe(|| drop(v.take())));
+        }
         for &x in &plan.misuse {
             let r = AssertUnwindSafe(m.validate_record(RecordId::from(x))).catch_unwind().await;
             match r {
@@ -266,9 +277,11 @@ mod real {
                 misuse.push(n + src.idx(rpb + 1));
             }
         }
-        let plan = Plan { dzkp, n, rpb, mults, delay, misuse, seed: src.seed() };
+        // only meaningful when something is asked afterwards
+        let orphan = !misuse.is_empty() && src.bool();
+        let plan = Plan { dzkp, n, rpb, mults, delay, misuse, orphan, seed: src.seed() };
         let kind = if dzkp { "dzkp" } else { "mac" };
-        let cj = json!({"context": kind, "records": n, "records_per_batch": rpb, "multiplications_per_record": plan.mults, "start_delays": plan.delay.iter().map(|d| d.clone()).collect::<Vec<_>>(), "validated_again_afterwards": plan.misuse, "seed": plan.seed.to_string()});
+        let cj = json!({"context": kind, "records": n, "records_per_batch": rpb, "multiplications_per_record": plan.mults, "start_delays": plan.delay.iter().map(|d| d.clone()).collect::<Vec<_>>(), "validated_again_afterwards": plan.misuse, "validator_dropped_first": plan.orphan, "seed": plan.seed.to_string()});
         let mut labels = vec![format!("ctx:{kind}"), format!("rpb:{rpb}"), format!("arrival:{}", ["together", "batch-head-first", "reverse", "random"][shape as usize])];
         if plan.mults.iter().any(|m| *m == 0) {
             labels.push("record-without-multiplication".into());
@@ -296,9 +309,12 @@ mod real {
                 }
             }
             if let Some((x, r)) = mis.first() {
-                let what = if *x < n { "twice" } else { "beyond-total" };
-                return Err(violation(format!("misuse-not-rejected:real:{kind}:{what}"), format!("helper {h}: validate_record({x}) after all {n} records were validated returned {r} (neither an error nor a panic)"), cj));
+                let what = if plan.orphan { "validator-dropped" } else if *x < n { "twice" } else { "beyond-total" };
+                return Err(violation(format!("misuse-not-rejected:real:{kind}:{what}"), format!("helper {h}: validate_record({x}) after all {n} records were validated{} returned {r} (neither an error nor a panic)", if plan.orphan { " and the validator handle was dropped" } else { "" }), cj));
             }
+        }
+        if plan.orphan {
+            labels.push("misuse:after-validator-dropped".into());
         }
         if !plan.misuse.is_empty() {
             labels.push(format!("misuse:{}", if plan.misuse.iter().any(|x| *x < n) && plan.misuse.iter().any(|x| *x >= n) { "both" } else if plan.misuse[0] < n { "twice" } else { "beyond-total" }));
@@ -309,7 +325,7 @@ mod real {
 
     pub fn sub() -> Sub {
         Sub::random("real_contexts", 200, 1500, 40_000, case,
-            "the real callers of the batcher under TestWorld: DZKPUpgraded::validate_record (Boolean multiplications, 1/2/4/8 records per batch) and the MAC context's validate_record (Fp31, batch = active work), 1..20 records; under DZKP only a generated prefix of the records multiplies (1-2 steps each; prefix = all, none, a whole number of batches, random), so the remaining records reach validate_record without having pushed anything - at a batch boundary while nothing at all is outstanding, arrival {together, batch head first, reverse, random} per helper; oracle: when the wait for record i returns, every record of its batch has requested validation; honest runs validate; validating a record again afterwards or a record beyond the total is an error or a panic, never Ok; non-trivial = more than one batch or a record without multiplication")
+            "the real callers of the batcher under TestWorld: DZKPUpgraded::validate_record (Boolean multiplications, 1/2/4/8 records per batch) and the MAC context's validate_record (Fp31, batch = active work), 1..20 records; under DZKP only a generated prefix of the records multiplies (1-2 steps each; prefix = all, none, a whole number of batches, random), so the remaining records reach validate_record without having pushed anything - at a batch boundary while nothing at all is outstanding, arrival {together, batch head first, reverse, random} per helper; oracle: when the wait for record i returns, every record of its batch has requested validation; honest runs validate; validating a record again afterwards or a record beyond the total - in half of these cases after the validator handle itself has been dropped while the context is still held - is an error or a panic, never Ok; non-trivial = more than one batch or a record without multiplication")
         .shrink_iters(40)
     }
 
